@@ -200,6 +200,14 @@ let handle (fields : string list) : string =
     (match estimate cs (if smw = "N" then None else Some (q_of_string smw)) with
      | OK (g, out) -> "OK " ^ (if g then "T" else "F") ^ " " ^ String.concat "," (List.map show out)
      | Err (e, _) -> "ERR " ^ err_name e)
+  | [ "sysloop"; sm; stream ] ->
+    let mem s = match String.split_on_char ':' s with
+      | [c; m; f] -> { mb_comp = nat_of_int (int_of_string c); mb_mass = q_of_string m; mb_full = (f = "T") }
+      | _ -> failwith "member" in
+    let r = sys_loop (q_of_string sm) { qnum = Z0; qden = XH } (List.map mem (split_nonempty ',' stream)) in
+    Printf.sprintf "%d %s" (List.length (yielded r)) (match ending r with LStop -> "stop" | LNeed -> "need" | LErr -> "err" | LYield _ -> "?")
+  | [ "complaw"; rel ] -> String.concat "," (List.map string_of_q (comp_law (List.map q_of_string (split_nonempty ',' rel))))
+  | [ "share"; p; m ] -> String.concat "," (List.map string_of_q (share (List.map q_of_string (split_nonempty ',' p)) (List.map q_of_string (split_nonempty ',' m))))
   | [ "float"; s ] ->
     (match py_float (explode (unhex s)) with None -> "ERR" | Some x -> string_of_num x ^ " " ^ implode (fprint x))
   | [ "repr"; s ] -> py_repr (float_of_string s)
